@@ -20,6 +20,8 @@ import (
 type module struct {
 	gen    func(seed int64, n int, args []string, out *json.Encoder)
 	replay func(c json.RawMessage, idx int, tr *traceWriter)
+	setup  func(args []string) // optional: extra replay arguments
+	finish func()              // optional: print STATS to stderr
 }
 
 var modules = map[string]*module{}
@@ -69,6 +71,9 @@ func main() {
 		enc := json.NewEncoder(bw)
 		enc.SetEscapeHTML(false)
 		tr := &traceWriter{w: bw, enc: enc}
+		if m.setup != nil {
+			m.setup(os.Args[5:])
+		}
 		sc := bufio.NewScanner(in)
 		sc.Buffer(make([]byte, 1<<20), 1<<28)
 		idx := 0
@@ -84,6 +89,9 @@ func main() {
 		}
 		bw.Flush()
 		out.Close()
+		if m.finish != nil {
+			m.finish()
+		}
 		fmt.Fprintf(os.Stderr, "replayed %d cases, %d events\n", idx, tr.n)
 	default:
 		os.Exit(2)
